@@ -283,4 +283,204 @@ theorem exec_round (prog : Program) (f : Nat → Nat) (hf : ∀ i, f (i + 1) = F
     (st32N c d (st32N a b c d k0) (st32N b c d (st32N a b c d k0) k1) k2) k3 bs blk _ i3.size (by omega) hd (by omega)
     i3.e0 i3.e12 i3.e6 i3.e8 i3.e10 hb (by omega) hbb (by omega) (by omega) r3]
 
+/-- three blocks followed by a final block that ends its statement sequence -/
+theorem exec_round_last (prog : Program) (f : Nat → Nat) (hf : ∀ i, f (i + 1) = Fu (f i)) (m : Nat)
+    (env : Env) (st : St) (ptr r a b c d : Nat) (kva kvb kvc kvd : Nat) (o : Nat) (k0 k1 k2 k3 : Nat) (bs : Nat) (blk : Block)
+    (inv : Inv env ptr r a b c d) (hptr : ptr = mkPtr bs blk.base)
+    (ha : 14 ≤ kva ∧ kva < 26) (hb' : 14 ≤ kvb ∧ kvb < 26) (hc : 14 ≤ kvc ∧ kvc < 26) (hd : 14 ≤ kvd ∧ kvd < 26)
+    (hb : st.mem[bs]? = some blk) (hal : blk.base % 4 = 0) (ho : o % 4 = 0) (hlt : blk.base + o + 16 < ptrBase) (hbb : bs < 2 ^ 30)
+    (hsz : o + 16 ≤ blk.bytes.size)
+    (r0 : readLE blk.bytes o 4 = some (k0, .sec)) (r1 : readLE blk.bytes (o + 4) 4 = some (k1, .sec))
+    (r2 : readLE blk.bytes (o + 8) 4 = some (k2, .sec)) (r3 : readLE blk.bytes (o + 12) 4 = some (k3, .sec)) :
+    ∃ env' leak', exec prog (f (m + 9))
+        (.seq (stepsBlk 6 8 10 12 kva o) (.seq (stepsBlk 8 10 12 6 kvb (o + 4)) (.seq (stepsBlk 10 12 6 8 kvc (o + 8)) (stepsBlk 12 6 8 10 kvd (o + 12))))) env st =
+      .ok .normal env' { st with leak := leak' } ∧
+      Inv env' ptr r (roundN a b c d k0 k1 k2 k3).1 (roundN a b c d k0 k1 k2 k3).2.1 (roundN a b c d k0 k1 k2 k3).2.2.1 (roundN a b c d k0 k1 k2 k3).2.2.2 := by
+  subst hptr
+  have i1 := inv.after6 kva ha a b c d k0
+  have i2 := i1.after8 kvb hb' b c d (st32N a b c d k0) k1
+  have i3 := i2.after10 kvc hc c d (st32N a b c d k0) (st32N b c d (st32N a b c d k0) k1) k2
+  have i4 := i3.after12 kvd hd d (st32N a b c d k0) (st32N b c d (st32N a b c d k0) k1) (st32N c d (st32N a b c d k0) (st32N b c d (st32N a b c d k0) k1) k2) k3
+  refine ⟨_, Ev.rd (mkPtr bs (blk.base + (o + 12))) 4 :: Ev.rd (mkPtr bs (blk.base + (o + 8))) 4 :: Ev.rd (mkPtr bs (blk.base + (o + 4))) 4 ::
+    Ev.rd (mkPtr bs (blk.base + o)) 4 :: st.leak, ?_, i4⟩
+  rw [show m + 9 = m + 2 + 7 from by omega]
+  rw [exec_seq_blk prog f hf (m + 2) env st 6 8 10 12 kva o a b c d k0 bs blk _ inv.size (by omega) ha (by omega)
+    inv.e0 inv.e6 inv.e8 inv.e10 inv.e12 hb (by omega) hbb (by omega) (by omega) r0]
+  rw [show m + 2 + 6 = m + 1 + 7 from by omega]
+  rw [exec_seq_blk prog f hf (m + 1) _ { st with leak := Ev.rd (mkPtr bs (blk.base + o)) 4 :: st.leak } 8 10 12 6 kvb (o + 4) b c d (st32N a b c d k0) k1 bs blk _ i1.size (by omega) hb' (by omega)
+    i1.e0 i1.e8 i1.e10 i1.e12 i1.e6 hb (by omega) hbb (by omega) (by omega) r1]
+  rw [show m + 1 + 6 = m + 7 from by omega]
+  rw [exec_seq_blk prog f hf m _ { st with leak := Ev.rd (mkPtr bs (blk.base + (o + 4))) 4 :: Ev.rd (mkPtr bs (blk.base + o)) 4 :: st.leak } 10 12 6 8 kvc (o + 8) c d (st32N a b c d k0) (st32N b c d (st32N a b c d k0) k1) k2 bs blk _ i2.size (by omega) hc (by omega)
+    i2.e0 i2.e10 i2.e12 i2.e6 i2.e8 hb (by omega) hbb (by omega) (by omega) r2]
+  rw [exec_stepsBlk prog (f (m + 6)) (f (m + 5)) (f (m + 4)) (f (m + 3)) (f (m + 2)) (f (m + 1)) (f m)
+    (hf _) (hf _) (hf _) (hf _) (hf _) (hf _) _ { st with leak := Ev.rd (mkPtr bs (blk.base + (o + 8))) 4 :: Ev.rd (mkPtr bs (blk.base + (o + 4))) 4 :: Ev.rd (mkPtr bs (blk.base + o)) 4 :: st.leak }
+    12 6 8 10 kvd (o + 12) d (st32N a b c d k0) (st32N b c d (st32N a b c d k0) k1)
+    (st32N c d (st32N a b c d k0) (st32N b c d (st32N a b c d k0) k1) k2) k3 bs blk
+    (by rw [i3.size]; omega) (by rw [i3.size]; omega) (by rw [i3.size]; omega) (by omega) (by omega) (by omega) (by omega) (by omega) (by omega)
+    (by decide) (by omega) (by omega) i3.e0 i3.e12 i3.e6 i3.e8 i3.e10 hb (by omega) hbb (by omega) (by omega) r3]
+
+/-! ### the 128-bit variant: loop shape, counter arithmetic, loop theorem -/
+
+def ctl : Stmt := seqs [.assign 1 (.bin .sub .u32 (.var 1) (.lit 1)), .ite (.bin .eq .u32 (.var 1) (.cast .u32 .i32 (.lit 0))) .brk .skip]
+
+def loop128 : Stmt :=
+  .loop (.ite (.bin .gt .u32 (.var 1) (.cast .u32 .i32 (.lit 0)))
+    (seqs [seqs [stepsBlk 6 8 10 12 14 16, stepsBlk 8 10 12 6 15 20, stepsBlk 10 12 6 8 16 24, stepsBlk 12 6 8 10 17 28, ctl,
+                 stepsBlk 6 8 10 12 18 16, stepsBlk 8 10 12 6 19 20, stepsBlk 10 12 6 8 20 24, stepsBlk 12 6 8 10 21 28],
+           .assign 1 (.bin .sub .u32 (.var 1) (.lit 1))])
+    .brk)
+
+/-- `tinyjambu_permutation_128` on naturals, with the loop structure of the C code (two rounds per iteration, early exit) -/
+def permN128 (k0 k1 k2 k3 : Nat) : Nat → Nat × Nat × Nat × Nat → Nat × Nat × Nat × Nat
+  | 0, s => s
+  | 1, s => roundN s.1 s.2.1 s.2.2.1 s.2.2.2 k0 k1 k2 k3
+  | n + 2, s =>
+    let s1 := roundN s.1 s.2.1 s.2.2.1 s.2.2.2 k0 k1 k2 k3
+    permN128 k0 k1 k2 k3 n (roundN s1.1 s1.2.1 s1.2.2.1 s1.2.2.2 k0 k1 k2 k3)
+
+theorem dec32 (r : Nat) (h : r + 1 < 4294967296) : (r + 1 + 4294967296 - 1 % 4294967296) % 4294967296 = r := by omega
+
+theorem Inv.set1 {env : Env} {ptr r a b c d : Nat} (h : Inv env ptr r a b c d) (r' : Nat) : Inv (setVar env 1 (r', .pub)) ptr r' a b c d :=
+  ⟨by rw [size_setVar]; exact h.size,
+   by rw [get_set_ne _ _ _ _ (by decide)]; exact h.e0,
+   by rw [get_set_eq _ _ _ (by rw [h.size]; decide)],
+   by rw [get_set_ne _ _ _ _ (by decide)]; exact h.e6,
+   by rw [get_set_ne _ _ _ _ (by decide)]; exact h.e8,
+   by rw [get_set_ne _ _ _ _ (by decide)]; exact h.e10,
+   by rw [get_set_ne _ _ _ _ (by decide)]; exact h.e12⟩
+
+/-- the loop exits immediately when the counter is 0 -/
+theorem loop128_zero (prog : Program) (f : Nat → Nat) (hf : ∀ i, f (i + 1) = Fu (f i)) (m : Nat)
+    (env : Env) (st : St) (ptr a b c d : Nat) (inv : Inv env ptr 0 a b c d) :
+    exec prog (f (m + 3)) loop128 env st = .ok .normal env { st with leak := Ev.br false :: st.leak } := by
+  unfold loop128
+  rw [exec_loop' prog (hf (m + 2)), exec_ite' prog (hf (m + 1))]
+  simp only [evalE, inv.e1, reduceCtorEq, if_false, castVal_u32_i32_zero, BinOp.needsPub2, BinOp.needsPub1, Bool.false_and, Bool.or_self,
+    Bool.false_eq_true, binVal, Ty.signed, gt_iff_lt, Nat.lt_irrefl, decide_false, b2n, Lab.join_pub_pub, ne_eq, not_true_eq_false,
+    show ((0 : Nat) != 0) = false from rfl]
+  rw [exec_brk' prog (hf m)]
+
+
+/-- everything the two iteration lemmas need about memory, in one place -/
+structure KM (st : St) (bs : Nat) (blk : Block) (k0 k1 k2 k3 : Nat) : Prop where
+  hb : st.mem[bs]? = some blk
+  al : blk.base % 4 = 0
+  lt : blk.base + 32 < ptrBase
+  bb : bs < 2 ^ 30
+  sz : 32 ≤ blk.bytes.size
+  r0 : readLE blk.bytes 16 4 = some (k0, Lab.sec)
+  r1 : readLE blk.bytes (16 + 4) 4 = some (k1, Lab.sec)
+  r2 : readLE blk.bytes (16 + 8) 4 = some (k2, Lab.sec)
+  r3 : readLE blk.bytes (16 + 12) 4 = some (k3, Lab.sec)
+
+/-- counter = 1: one round, then the early exit -/
+theorem loop128_one (prog : Program) (f : Nat → Nat) (hf : ∀ i, f (i + 1) = Fu (f i)) (m : Nat)
+    (env : Env) (st : St) (a b c d k0 k1 k2 k3 bs : Nat) (blk : Block)
+    (inv : Inv env (mkPtr bs blk.base) 1 a b c d) (km : KM st bs blk k0 k1 k2 k3) :
+    ∃ env' leak', exec prog (f (m + 18)) loop128 env st = .ok .normal env' { st with leak := leak' } ∧
+      Inv env' (mkPtr bs blk.base) 0 (roundN a b c d k0 k1 k2 k3).1 (roundN a b c d k0 k1 k2 k3).2.1
+        (roundN a b c d k0 k1 k2 k3).2.2.1 (roundN a b c d k0 k1 k2 k3).2.2.2 := by
+  obtain ⟨env1, l1, h1, inv1⟩ := exec_round prog f hf (m + 5) env { st with leak := Ev.br true :: st.leak } (mkPtr bs blk.base) 1 a b c d 14 15 16 17 16
+    k0 k1 k2 k3 bs blk
+    (.seq ctl (.seq (stepsBlk 6 8 10 12 18 16) (.seq (stepsBlk 8 10 12 6 19 20) (.seq (stepsBlk 10 12 6 8 20 24) (stepsBlk 12 6 8 10 21 28)))))
+    inv rfl (by decide) (by decide) (by decide) (by decide) km.hb km.al (by decide) (by have := km.lt; omega) km.bb (by have := km.sz; omega)
+    km.r0 km.r1 km.r2 km.r3
+  refine ⟨setVar env1 1 (0, .pub), Ev.br true :: l1, ?_, inv1.set1 0⟩
+  unfold loop128
+  rw [exec_loop' prog (hf (m + 17)), exec_ite' prog (hf (m + 16))]
+  simp only [evalE, inv.e1, reduceCtorEq, if_false, castVal_u32_i32_zero, BinOp.needsPub2, BinOp.needsPub1, Bool.false_and, Bool.or_self,
+    Bool.false_eq_true, binVal, Ty.signed, gt_iff_lt, Nat.zero_lt_one, decide_true, b2n, Lab.join_pub_pub, ne_eq, not_true_eq_false, if_true,
+    show ((1 : Nat) != 0) = true from rfl, seqs]
+  rw [exec_seq' prog (hf (m + 15))]
+  rw [show m + 15 = m + 5 + 10 from by omega, h1]
+  rw [show m + 5 + 6 = m + 10 + 1 from by omega, exec_seq' prog (hf (m + 10))]
+  unfold ctl
+  simp only [seqs]
+  rw [exec_seq' prog (hf (m + 9)), exec_assign' prog (hf (m + 8))]
+  simp only [evalE, inv1.e1, reduceCtorEq, if_false, BinOp.needsPub2, BinOp.needsPub1, Bool.false_and, Bool.or_self, Bool.false_eq_true, binVal,
+    Ty.modulus, Lab.join_pub_pub, dec32 0 (by decide)]
+  rw [exec_ite' prog (hf (m + 8))]
+  simp only [evalE, get_set_eq _ _ _ (show 1 < env1.size from by rw [inv1.size]; decide), reduceCtorEq, if_false, castVal_u32_i32_zero,
+    BinOp.needsPub2, BinOp.needsPub1, Bool.false_and, Bool.or_self, Bool.false_eq_true, binVal, decide_true, b2n, Lab.join_pub_pub, ne_eq,
+    not_true_eq_false, if_true, show ((1 : Nat) != 0) = true from rfl]
+  rw [exec_brk' prog (hf (m + 7))]
+
+
+/-- counter ≥ 2: two rounds, counter decreased by 2, and the loop goes round again -/
+theorem loop128_two (prog : Program) (f : Nat → Nat) (hf : ∀ i, f (i + 1) = Fu (f i)) (m : Nat)
+    (env : Env) (st : St) (n a b c d k0 k1 k2 k3 bs : Nat) (blk : Block) (hn : n + 2 < 4294967296)
+    (inv : Inv env (mkPtr bs blk.base) (n + 2) a b c d) (km : KM st bs blk k0 k1 k2 k3) :
+    ∃ env' leak', exec prog (f (m + 18)) loop128 env st = exec prog (f (m + 17)) loop128 env' { st with leak := leak' } ∧
+      Inv env' (mkPtr bs blk.base) n
+        (roundN (roundN a b c d k0 k1 k2 k3).1 (roundN a b c d k0 k1 k2 k3).2.1 (roundN a b c d k0 k1 k2 k3).2.2.1 (roundN a b c d k0 k1 k2 k3).2.2.2 k0 k1 k2 k3).1
+        (roundN (roundN a b c d k0 k1 k2 k3).1 (roundN a b c d k0 k1 k2 k3).2.1 (roundN a b c d k0 k1 k2 k3).2.2.1 (roundN a b c d k0 k1 k2 k3).2.2.2 k0 k1 k2 k3).2.1
+        (roundN (roundN a b c d k0 k1 k2 k3).1 (roundN a b c d k0 k1 k2 k3).2.1 (roundN a b c d k0 k1 k2 k3).2.2.1 (roundN a b c d k0 k1 k2 k3).2.2.2 k0 k1 k2 k3).2.2.1
+        (roundN (roundN a b c d k0 k1 k2 k3).1 (roundN a b c d k0 k1 k2 k3).2.1 (roundN a b c d k0 k1 k2 k3).2.2.1 (roundN a b c d k0 k1 k2 k3).2.2.2 k0 k1 k2 k3).2.2.2 := by
+  obtain ⟨env1, l1, h1, inv1⟩ := exec_round prog f hf (m + 5) env { st with leak := Ev.br true :: st.leak } (mkPtr bs blk.base) (n + 2) a b c d 14 15 16 17 16
+    k0 k1 k2 k3 bs blk
+    (.seq ctl (.seq (stepsBlk 6 8 10 12 18 16) (.seq (stepsBlk 8 10 12 6 19 20) (.seq (stepsBlk 10 12 6 8 20 24) (stepsBlk 12 6 8 10 21 28)))))
+    inv rfl (by decide) (by decide) (by decide) (by decide) km.hb km.al (by decide) (by have := km.lt; omega) km.bb (by have := km.sz; omega)
+    km.r0 km.r1 km.r2 km.r3
+  have inv1' := inv1.set1 (n + 1)
+  obtain ⟨env2, l2, h2, inv2⟩ := exec_round_last prog f hf (m + 1) (setVar env1 1 (n + 1, .pub)) { st with leak := Ev.br false :: l1 } (mkPtr bs blk.base) (n + 1)
+    _ _ _ _ 18 19 20 21 16 k0 k1 k2 k3 bs blk inv1' rfl (by decide) (by decide) (by decide) (by decide) km.hb km.al (by decide)
+    (by have := km.lt; omega) km.bb (by have := km.sz; omega) km.r0 km.r1 km.r2 km.r3
+  refine ⟨setVar env2 1 (n, .pub), l2, ?_, inv2.set1 n⟩
+  unfold loop128
+  rw [exec_loop' prog (hf (m + 17)), exec_ite' prog (hf (m + 16))]
+  simp only [evalE, inv.e1, reduceCtorEq, if_false, castVal_u32_i32_zero, BinOp.needsPub2, BinOp.needsPub1, Bool.false_and, Bool.or_self,
+    Bool.false_eq_true, binVal, Ty.signed, gt_iff_lt, Nat.zero_lt_succ, decide_true, b2n, Lab.join_pub_pub, ne_eq, not_true_eq_false, if_true,
+    show ((1 : Nat) != 0) = true from rfl, seqs]
+  rw [exec_seq' prog (hf (m + 15))]
+  rw [show m + 15 = m + 5 + 10 from by omega, h1]
+  rw [show m + 5 + 6 = m + 10 + 1 from by omega, exec_seq' prog (hf (m + 10))]
+  unfold ctl
+  simp only [seqs]
+  rw [exec_seq' prog (hf (m + 9)), exec_assign' prog (hf (m + 8))]
+  simp only [evalE, inv1.e1, reduceCtorEq, if_false, BinOp.needsPub2, BinOp.needsPub1, Bool.false_and, Bool.or_self, Bool.false_eq_true, binVal,
+    Ty.modulus, Lab.join_pub_pub, dec32 (n + 1) (by omega)]
+  rw [exec_ite' prog (hf (m + 8))]
+  have hne : ¬ n + 1 = 0 := by omega
+  simp only [evalE, get_set_eq _ _ _ (show 1 < env1.size from by rw [inv1.size]; decide), reduceCtorEq, if_false, castVal_u32_i32_zero,
+    BinOp.needsPub2, BinOp.needsPub1, Bool.false_and, Bool.or_self, Bool.false_eq_true, binVal, hne, decide_false, b2n, Lab.join_pub_pub, ne_eq,
+    not_true_eq_false, show ((0 : Nat) != 0) = false from rfl]
+  rw [exec_skip' prog (hf (m + 7))]
+  simp only []
+  rw [show m + 10 = m + 1 + 9 from by omega, h2]
+  simp only []
+  rw [show m + 5 + 10 = m + 14 + 1 from by omega, exec_assign' prog (hf (m + 14))]
+  simp only [evalE, inv2.e1, reduceCtorEq, if_false, BinOp.needsPub2, BinOp.needsPub1, Bool.false_and, Bool.or_self, Bool.false_eq_true, binVal,
+    Ty.modulus, Lab.join_pub_pub, dec32 n (by omega)]
+
+
+theorem KM.leak {st : St} {bs : Nat} {blk : Block} {k0 k1 k2 k3 : Nat} (h : KM st bs blk k0 k1 k2 k3) (l : List Ev) :
+    KM { st with leak := l } bs blk k0 k1 k2 k3 := ⟨h.hb, h.al, h.lt, h.bb, h.sz, h.r0, h.r1, h.r2, h.r3⟩
+
+/-- **the loop of `tinyjambu_permutation_128`**: for every round count below 2^32 it terminates with the counter at 0 and the four state
+    words equal to `permN128` of the initial ones; memory is only read -/
+theorem loop128_spec (prog : Program) (f : Nat → Nat) (hf : ∀ i, f (i + 1) = Fu (f i)) (k0 k1 k2 k3 bs : Nat) (blk : Block) :
+    ∀ (r m : Nat) (env : Env) (st : St) (a b c d : Nat), r < 4294967296 → Inv env (mkPtr bs blk.base) r a b c d → KM st bs blk k0 k1 k2 k3 →
+    ∃ env' leak', exec prog (f (m + r + 18)) loop128 env st = .ok .normal env' { st with leak := leak' } ∧
+      Inv env' (mkPtr bs blk.base) 0 (permN128 k0 k1 k2 k3 r (a, b, c, d)).1 (permN128 k0 k1 k2 k3 r (a, b, c, d)).2.1
+        (permN128 k0 k1 k2 k3 r (a, b, c, d)).2.2.1 (permN128 k0 k1 k2 k3 r (a, b, c, d)).2.2.2 := by
+  intro r
+  induction r using Nat.strongRecOn with
+  | ind r ih =>
+    intro m env st a b c d hr inv km
+    match r, ih, hr, inv with
+    | 0, _, _, inv =>
+      refine ⟨env, Ev.br false :: st.leak, ?_, inv⟩
+      rw [show m + 0 + 18 = (m + 15) + 3 from by omega]
+      exact loop128_zero prog f hf (m + 15) env st _ a b c d inv
+    | 1, _, _, inv =>
+      obtain ⟨env', l', h, i'⟩ := loop128_one prog f hf (m + 1) env st a b c d k0 k1 k2 k3 bs blk inv km
+      exact ⟨env', l', by rw [show m + 1 + 18 = m + 1 + 18 from rfl]; exact h, i'⟩
+    | n + 2, ih, hr, inv =>
+      obtain ⟨env1, l1, h1, i1⟩ := loop128_two prog f hf (m + n + 2) env st n a b c d k0 k1 k2 k3 bs blk hr inv km
+      obtain ⟨env2, l2, h2, i2⟩ := ih n (by omega) (m + 1) env1 { st with leak := l1 } _ _ _ _ (by omega) i1 (km.leak l1)
+      refine ⟨env2, l2, ?_, ?_⟩
+      · rw [show m + (n + 2) + 18 = m + n + 2 + 18 from by omega, h1, show m + n + 2 + 17 = m + 1 + n + 18 from by omega]
+        exact h2
+      · simpa [permN128] using i2
+
 end TJ.MiniC.PermC
